@@ -6,7 +6,7 @@ cd /verif
 python3 - "$1" <<'PY' > /tmp/rf_list.txt
 import json,sys,glob
 sub=sys.argv[1] if len(sys.argv)>1 else ""
-for g in ("A","B","C","D","E","F","G","H","I"):
+for g in ("A","B","C","D","E","F","G","H","I","J"):
     if not __import__("os").path.exists(f"/verif/refactors/{g}.json"): continue
     for i,r in enumerate(json.load(open(f"/verif/refactors/{g}.json")),1):
         name=f"{g}_{i}"
